@@ -15,13 +15,20 @@ structure CovInv (w : World) : Prop where
       (w.nodeOf (w.tableOf t).node).tables.getD (w.tableOf t).k 0 = t
   active : ∀ n, n < w.nodes.size → (w.nodeOf n).active = false → (w.nodeOf n).tables = #[]
   single : ∀ n, n < w.nodes.size → (w.nodeOf n).rel = none → (w.nodeOf n).tables.size ≤ 1
+  nonempty : ∀ n, n < w.nodes.size → (w.nodeOf n).active = true → 0 < (w.nodeOf n).tables.size
 
 /-- nothing `CovInv` reads changed -/
 theorem cov_frame {w w' : World} (hC : CovInv w) (hts : w'.tables.size = w.tables.size) (hns : w'.nodes.size = w.nodes.size)
     (ht : ∀ t, (w'.tableOf t).k = (w.tableOf t).k ∧ (w'.tableOf t).node = (w.tableOf t).node)
     (hn : ∀ n, (w'.nodeOf n).tables = (w.nodeOf n).tables ∧ (w'.nodeOf n).active = (w.nodeOf n).active ∧ (w'.nodeOf n).rel = (w.nodeOf n).rel) :
     CovInv w' := by
-  refine ⟨?_, ?_, ?_⟩
+  refine ⟨?_, ?_, ?_, ?_⟩
+  rotate_left 3
+  · intro n hlt ha
+    rw [hns] at hlt
+    rw [(hn n).2.1] at ha
+    rw [(hn n).1]
+    exact hC.nonempty n hlt ha
   · intro t hlt
     rw [hts] at hlt
     rw [(ht t).1, (ht t).2, (hn _).1]
@@ -41,27 +48,46 @@ theorem cov_frame {w w' : World} (hC : CovInv w) (hts : w'.tables.size = w.table
 structure ActSame (w w' : World) : Prop where
   nsize : w.nodes.size ≤ w'.nodes.size
   old : ∀ n, n < w.nodes.size → (w'.nodeOf n).active = (w.nodeOf n).active
+  new : ∀ n, w.nodes.size ≤ n → n < w'.nodes.size → (w'.nodeOf n).active = false
 
 theorem actSame_closed : StepClosed ActSame where
-  refl w := ⟨Nat.le_refl _, fun _ _ => rfl⟩
-  trans a b c h1 h2 := ⟨Nat.le_trans h1.nsize h2.nsize, fun n hn => (h2.old n (Nat.lt_of_lt_of_le hn h1.nsize)).trans (h1.old n hn)⟩
+  refl w := ⟨Nat.le_refl _, fun _ _ => rfl, fun n h1 h2 => by omega⟩
+  trans a b c h1 h2 := ⟨Nat.le_trans h1.nsize h2.nsize, fun n hn => (h2.old n (Nat.lt_of_lt_of_le hn h1.nsize)).trans (h1.old n hn),
+    fun n hge hlt => by
+      by_cases hb : n < b.nodes.size
+      · rw [h2.old n hb]; exact h1.new n hge hb
+      · exact h2.new n (by omega) hlt⟩
   nbrs w n nb := by
-    refine ⟨by simp [setNode], ?_⟩
-    intro k _
-    rw [nodeOf_setNode]
-    split
-    · rename_i h; rw [h.1]
-    · rfl
+    refine ⟨by simp [setNode], ?_, ?_⟩
+    · intro k _
+      rw [nodeOf_setNode]
+      split
+      · rename_i h; rw [h.1]
+      · rfl
+    · intro k h1 h2
+      have : (w.setNode n { w.nodeOf n with nbrs := nb }).nodes.size = w.nodes.size := by simp [setNode]
+      omega
   node w m r := by
-    refine ⟨by simp [createNode], ?_⟩
-    intro k hk
-    unfold createNode nodeOf; simp only []
-    rw [getD_push]; simp [Nat.ne_of_lt hk]
+    refine ⟨by simp [createNode], ?_, ?_⟩
+    · intro k hk
+      unfold createNode nodeOf; simp only []
+      rw [getD_push]; simp [Nat.ne_of_lt hk]
+    · intro k h1 h2
+      have hs : (w.createNode m r).1.nodes.size = w.nodes.size + 1 := by simp [createNode]
+      have : k = w.nodes.size := by omega
+      subst this
+      unfold createNode nodeOf; simp only []
+      rw [getD_push]; simp
 
 theorem cov_graphOnly {w w' : World} (h : GraphOnly w w') (ha : ActSame w w') (hn : TNodeOK w) (hC : CovInv w) : CovInv w' := by
   have hto : ∀ t, w'.tableOf t = w.tableOf t := by intro t; unfold tableOf; rw [h.tables]
   have hts : w'.tables.size = w.tables.size := by rw [h.tables]
-  refine ⟨?_, ?_, ?_⟩
+  refine ⟨?_, ?_, ?_, ?_⟩
+  rotate_left 3
+  · intro n hlt hact
+    by_cases ho : n < w.nodes.size
+    · rw [(h.old n ho).2.2.1]; rw [ha.old n ho] at hact; exact hC.nonempty n ho hact
+    · rw [ha.new n (by omega) hlt] at hact; cases hact
   · intro t ht
     rw [hts] at ht
     rw [hto, (h.old _ (hn t ht)).2.2.1]
@@ -119,7 +145,14 @@ theorem cov_createTable (w : World) (hC : CovInv w) (hI : NodeInv w) (n : Nat) (
           = if x = w.tables.size then { node := n, k := (w.nodeOf n).tables.size, target := target, active := true, rows := #[], cap := (w.nodeOf n).capInc } else w.tableOf x := by
         intro x
         rw [tableOf_cacheAdd, tableOf_setNode, tableOf_push]
-      refine ⟨?_, ?_, ?_⟩
+      refine ⟨?_, ?_, ?_, ?_⟩
+      rotate_left 3
+      · intro x hx hact
+        have hx' : x < w.nodes.size := by simpa [cacheAdd, setNode] using hx
+        rw [hnodeOf] at hact ⊢
+        by_cases e : n = x
+        · rw [if_pos e]; simp
+        · rw [if_neg e] at hact ⊢; exact hC.nonempty x hx' hact
       · intro t hlt
         have hlt' : t < w.tables.size + 1 := by simpa [cacheAdd, setNode] using hlt
         rw [htableOf]
@@ -171,7 +204,14 @@ theorem cov_createTable (w : World) (hC : CovInv w) (hI : NodeInv w) (n : Nat) (
         = if x = w.tables.size then { node := n, k := 0, target := Entity.zero, active := true, rows := #[], cap := if fs = true then (w.nodeOf n).capInc else 1 } else w.tableOf x := by
       intro x
       rw [tableOf_cacheAdd, tableOf_setNode, tableOf_push]
-    refine ⟨?_, ?_, ?_⟩
+    refine ⟨?_, ?_, ?_, ?_⟩
+    rotate_left 3
+    · intro x hx hact
+      have hx' : x < w.nodes.size := by simpa [cacheAdd, setNode] using hx
+      rw [hnodeOf] at hact ⊢
+      by_cases e : n = x
+      · rw [if_pos e]; simp
+      · rw [if_neg e] at hact ⊢; exact hC.nonempty x hx' hact
     · intro t hlt
       have hlt' : t < w.tables.size + 1 := by simpa [cacheAdd, setNode] using hlt
       rw [htableOf]
@@ -261,6 +301,6 @@ theorem cov_congr {w w' : World} (hn : w'.nodes = w.nodes) (ht : w'.tables = w.t
   cases w; cases w'
   simp only at hn ht
   subst hn; subst ht
-  exact ⟨h.cover, h.active, h.single⟩
+  exact ⟨h.cover, h.active, h.single, h.nonempty⟩
 
 end Arche.Cov
